@@ -212,3 +212,72 @@ package db
 //@   modifies *
 //@   only-contracts none
 //@   before[stamped-with-arg] call refreshOldRevisionJSON#1 $6 == channels && $2 == docId && $3 == oldRev && $4 == oldBody
+
+// ---- the principal documents a change waiter listens to (revocation reaches open feeds / BLIP connections) ----
+// A continuous feed or replication notices that its user's access changed because its ChangeWaiter listens to the
+// user's document and to the document of every role the user currently has. If the key list misses a current role,
+// a later channel removal from that role is never noticed and bodies of the revoked channel keep being served.
+
+//@ pred userKeyID(mk *base.MetadataKeys, u auth.User) channels.ID
+//@   is channels.ID{Name: userDocKey(mk, prName(u)), CollectionID: principalDocCollectionIDForChannelID}
+//@ pred roleKeyID(mk *base.MetadataKeys, r string) channels.ID
+//@   is channels.ID{Name: roleDocKey(mk, r), CollectionID: principalDocCollectionIDForChannelID}
+
+// keys is exactly [user key] ++ one key per current role name of the user
+//@ pred isUserKeys(keys []channels.ID, u auth.User, mk *base.MetadataKeys) bool
+//@   is len(keys) >= 1 && keys[0] == userKeyID(mk, u) &&
+//@      (forall r string :: {r in unbox(u, *auth.userImpl).RoleNames()} (r in unbox(u, *auth.userImpl).RoleNames()) ==> elem(keys, roleKeyID(mk, r))) &&
+//@      (forall i int :: {keys[i]} 1 <= i && i < len(keys) ==> (exists r string :: {r in unbox(u, *auth.userImpl).RoleNames()} (r in unbox(u, *auth.userImpl).RoleNames()) && keys[i] == roleKeyID(mk, r)))
+
+// CurrentCount: takes the notifier lock and computes the maximum of the key counters; writes nothing (frame on:
+// the body is checked against the empty modifies clause).
+//@ func changeListener.CurrentCount
+//@   frame on
+
+// RefreshUserKeys: afterwards the waiter's user keys are exactly the user's key and the keys of the user's CURRENT
+// roles. The early exit (nothing rebuilt) is taken only when that already holds: one key, which is this user's
+// (same-user: the waiter was created for this user), and no roles now.
+//@ func ChangeWaiter.RefreshUserKeys
+//@   requires waiter != nil && (user == nil || userIfaceWF(user))
+//@   requires[same-user] user != nil && len(waiter.userKeys) >= 1 ==> waiter.userKeys[0] == userKeyID(metaKeys, user)
+//@   modifies waiter.userKeys, waiter.lastUserCount, elems(waiter.userKeys)
+//@   ensures[keys-of-current-roles] user != nil ==> isUserKeys(waiter.userKeys, user, metaKeys)
+//@   ensures[no-user]               user == nil ==> waiter.userKeys == old(waiter.userKeys)
+//@   loop 1 invariant[user-key] len(waiter.userKeys) >= 1 && waiter.userKeys[0] == userKeyID(metaKeys, user)
+//@   loop 1 invariant[covered]  forall r string :: {r in #visited} (r in #visited) ==> elem(waiter.userKeys, roleKeyID(metaKeys, r))
+//@   loop 1 invariant[only]     forall i int :: {waiter.userKeys[i]} 1 <= i && i < len(waiter.userKeys) ==> (exists r string :: {r in #visited} (r in #visited) && waiter.userKeys[i] == roleKeyID(metaKeys, r))
+//@   loop 1 invariant[visited]  forall r string :: {r in #visited} (r in #visited) ==> (r in unbox(user, *auth.userImpl).RoleNames())
+
+//@ func changeListener._newWaiter
+//@   ensures[fresh] result != nil && !old(allocated(now(result)))
+//@   ensures[keys]  result.keys == keys && result.listener == listener && result.userKeys == nil
+
+// The same statement at construction (NewUserWaiter and the changes feed create their waiter here): the user keys
+// are the user's key and the keys of the user's current roles, and they are among the keys waited on.
+//@ func changeListener.NewWaiterWithChannels
+//@   requires listener != nil && (user == nil || userIfaceWF(user))
+//@   ensures[keys-of-current-roles] user != nil ==> result != nil && isUserKeys(result.userKeys, user, listener.metaKeys)
+//@   ensures[no-user]               user == nil ==> result != nil && result.userKeys == nil
+//@   loop 1 invariant[alloc]    allocated(waitKeys)
+//@   loop 2 invariant[user-key] len(userKeys) >= 1 && userKeys[0] == userKeyID(listener.metaKeys, user)
+//@   loop 2 invariant[separate] allocated(waitKeys) && !sameArray(userKeys, waitKeys)   // appending userKeys to waitKeys afterwards does not disturb userKeys
+//@   loop 2 invariant[covered]  forall r string :: {r in #visited} (r in #visited) ==> elem(userKeys, roleKeyID(listener.metaKeys, r))
+//@   loop 2 invariant[only]     forall i int :: {userKeys[i]} 1 <= i && i < len(userKeys) ==> (exists r string :: {r in #visited} (r in #visited) && userKeys[i] == roleKeyID(listener.metaKeys, r))
+//@   loop 2 invariant[visited]  forall r string :: {r in #visited} (r in #visited) ==> (r in unbox(user, *auth.userImpl).RoleNames())
+
+// UpdateChannels replaces the channel keys and keeps the user keys: they are unchanged and all of them are waited on.
+//@ func ChangeWaiter.UpdateChannels
+//@   requires waiter != nil
+//@   modifies waiter.keys
+//@   ensures[user-keys-kept]   waiter.userKeys == old(waiter.userKeys) && (forall i int :: {waiter.userKeys[i]} 0 <= i && i < len(waiter.userKeys) ==> waiter.userKeys[i] == old(waiter.userKeys[i]))
+//@   ensures[user-keys-waited] forall i int :: {waiter.userKeys[i]} 0 <= i && i < len(waiter.userKeys) ==> elem(waiter.keys, waiter.userKeys[i])
+//@   loop 1 invariant[fresh] !old(allocated(updatedKeys))
+//@   loop 1 invariant[kept]  forall i int :: {waiter.userKeys[i]} 0 <= i && i < len(waiter.userKeys) ==> waiter.userKeys[i] == old(waiter.userKeys[i])
+
+//@ func Database.User
+//@   pure
+
+// NewUserWaiter: the waiter of a connection / feed listens to the connected user's key and current role keys.
+//@ func Database.NewUserWaiter
+//@   requires db != nil && db.DatabaseContext != nil && db.mutationListener != nil && (db.user == nil || userIfaceWF(db.user))
+//@   ensures[keys-of-current-roles] db.user != nil ==> result != nil && isUserKeys(result.userKeys, db.user, db.mutationListener.metaKeys)
